@@ -853,6 +853,103 @@ func longBody(n int) func(c *mc.Ctx, item int) mc.Verdict {
 
 // ---------------------------------------------------------------------------
 
+// ---------------------------------------------------------------------------
+// curve forms: the three ways a curve is written (hvcurveto, vhcurveto,
+// rrcurveto) with every combination of adversarial fractional parts on every
+// free delta.  The fractional parts are chosen so that the best quotient p/q
+// (q <= 107) is off by almost the full 1/214 in a known direction: errors of
+// the same sign add up unless the encoder measures each delta from the
+// position the decoder will reconstruct.
+
+var curveFracs = []*big.Rat{
+	numref.R(0, 1),
+	numref.R(1, 250),    // 0.0040 -> 0, error -0.0040
+	numref.R(23, 5000),  // 0.0046 -> 0, error -0.0046
+	numref.R(-1, 250),   // error +0.0040
+	numref.R(-23, 5000), // error +0.0046
+}
+
+var curveFormNames = []string{"rrcurveto", "hvcurveto", "vhcurveto"}
+
+// curveDeltas returns the three delta pairs of a curve of the given form whose
+// free deltas carry the fractional parts fr[0..].
+func curveDeltas(form int, fr []*big.Rat) [3][2]*big.Rat {
+	add := func(base int64, f *big.Rat) *big.Rat { return new(big.Rat).Add(big.NewRat(base, 1), f) }
+	zero := func() *big.Rat { return new(big.Rat) }
+	switch form {
+	case 0:
+		return [3][2]*big.Rat{{add(10, fr[0]), add(20, fr[1])}, {add(20, fr[2]), add(20, fr[3])}, {add(20, fr[4]), add(10, fr[5])}}
+	case 1: // horizontal start, vertical end
+		return [3][2]*big.Rat{{add(10, fr[0]), zero()}, {add(20, fr[1]), add(20, fr[2])}, {zero(), add(10, fr[3])}}
+	default: // vertical start, horizontal end
+		return [3][2]*big.Rat{{zero(), add(10, fr[0])}, {add(20, fr[1]), add(20, fr[2])}, {add(10, fr[3]), zero()}}
+	}
+}
+
+func curveFormsFamily(budget time.Duration) mc.Family {
+	n := len(curveFracs)
+	free := []int{6, 4, 4}
+	// item = (form, fractional parts of the first two free deltas)
+	return mc.Family{
+		Name: "curve-forms-x-fraction-grid", Items: 3 * n * n, Budget: budget,
+		Rule: fmt.Sprintf("item = (curve form in %v, fractional parts of the first two free deltas); choices = the fractional parts of the remaining free deltas (6 free deltas for rrcurveto, 4 for hv/vhcurveto), of the start point (3) and of a following line (%d), each from %d adversarial values {0, +-0.0040, +-0.0046} whose best quotient p/q is off by almost 1/214 in a known direction; path = moveto, curve, lineto, curve again, closepath; encoder -> exact reconstruction and library decoder: every absolute coordinate (control points included) within 1/214 of the requested one; non-trivial = at least one non-zero fractional part", curveFormNames, n, n),
+		Body: func(c *mc.Ctx, item int) mc.Verdict {
+			form := item / (n * n)
+			fr := []*big.Rat{curveFracs[item%n], curveFracs[(item/n)%n]}
+			nz := item%(n*n) != 0
+			for len(fr) < free[form] {
+				k := c.Choose(n)
+				nz = nz || k != 0
+				fr = append(fr, curveFracs[k])
+			}
+			start := curveFracs[c.Choose(3)]
+			line := curveFracs[c.Choose(n)]
+			p := newPath()
+			x, y := p.advance(new(big.Rat).Add(big.NewRat(100, 1), start), new(big.Rat).Add(big.NewRat(50, 1), start))
+			p.g.MoveTo(x, y)
+			curve := func() {
+				d := curveDeltas(form, fr)
+				x1, y1 := p.advance(d[0][0], d[0][1])
+				x2, y2 := p.advance(d[1][0], d[1][1])
+				x3, y3 := p.advance(d[2][0], d[2][1])
+				p.g.CurveTo(x1, y1, x2, y2, x3, y3)
+			}
+			curve()
+			lx, ly := p.advance(new(big.Rat).Add(big.NewRat(7, 1), line), new(big.Rat).Add(big.NewRat(-3, 1), line))
+			p.g.LineTo(lx, ly)
+			curve()
+			p.g.ClosePath()
+			what := func() string {
+				var parts []string
+				for _, f := range fr {
+					parts = append(parts, f.RatString())
+				}
+				return fmt.Sprintf("%s with fractional parts [%s], start +%s, line +%s: %s", curveFormNames[form], strings.Join(parts, " "), start.RatString(), line.RatString(), t1fontsDump(p.g))
+			}
+			res, v := checkPath(p, what)
+			c.Step()
+			if v != nil {
+				v.Key += ":" + curveFormNames[form]
+				v.Render = what()
+				return *v
+			}
+			out := mc.Pass(curveFormNames[form]+"/"+errClass(res.maxErr)+shimNote(), nz)
+			if c.Render() {
+				out.Render = what() + fmt.Sprintf(" max error %g", res.maxErr)
+			}
+			return out
+		},
+	}
+}
+
+func t1fontsDump(g *type1.Glyph) string {
+	var sb strings.Builder
+	for _, cmd := range g.Cmds {
+		fmt.Fprintf(&sb, "%v%v ", cmd.Op, cmd.Args)
+	}
+	return sb.String()
+}
+
 func main() {
 	mc.Main(mc.Program{
 		Property: "C20",
@@ -1010,6 +1107,7 @@ func main() {
 					return out
 				},
 			})
+			fams = append(fams, curveFormsFamily(budget))
 			fams = append(fams, mc.Family{
 				Name: "drift-long-paths", Items: numLetters * len(formats), Budget: budget,
 				Rule: "item = one (delta, kind) x file format: a path of 10,000 such segments; encoder -> exact reconstruction and library decoder on the full path (format index 0), and Font.Write -> Read and -> independent decoder in each format (on the longest prefix whose charstring fits the 65535-byte PostScript string limit): every absolute coordinate within 1/214 of the requested one; non-trivial = all",
